@@ -760,6 +760,41 @@ pub fn scenarios(t: &Tables, seeds: &[String], seed: u64, n_small: usize, n_mate
             }
         }
     }
+    // ... and the variant that shows at depth 1 already: the capture gives check, every reply to it is a check to the mover,
+    // and each of them is answered by mate - the check extensions carry that line to its end inside the first iteration, so the
+    // longer mate is found before the quiet mate in one is looked at
+    count = 0;
+    tries = 0;
+    while count < n_mate / 2 + 1 && tries < 3_000_000 {
+        tries += 1;
+        let strong: &[u32] = [&[6u32, 5, 4, 4][..], &[6, 4, 4, 2, 2], &[6, 5, 4, 2], &[6, 5, 5, 4], &[6, 4, 4, 3, 2]][rng.gen_range(0..5)];
+        let weak: &[u32] = [&[6u32, 5, 4, 1, 1][..], &[6, 5, 1, 1], &[6, 4, 4, 1, 1], &[6, 5, 4], &[6, 5, 3, 1]][rng.gen_range(0..5)];
+        if let Some(b) = random_endgame(t, &mut rng, strong, weak) {
+            if is_check(&b, b.to_move) {
+                continue;
+            }
+            let men = |x: &BoardState| x.board.iter().flatten().filter(|q| matches!(q, Square::Full(_))).count();
+            let nomoves = |x: &BoardState| generate_moves(x, MoveGenerationMode::AllMoves, &t.hasher).is_empty();
+            let ms = generate_moves(&b, MoveGenerationMode::AllMoves, &t.hasher);
+            if !ms.iter().any(|m| men(m) == men(&b) && is_check(m, m.to_move) && nomoves(m)) {
+                continue;
+            }
+            let chain = ms.iter().any(|m| {
+                if men(m) == men(&b) || !is_check(m, m.to_move) {
+                    return false;
+                }
+                let rs = generate_moves(m, MoveGenerationMode::AllMoves, &t.hasher);
+                !rs.is_empty() && rs.iter().all(|r| is_check(r, r.to_move) && generate_moves(r, MoveGenerationMode::AllMoves, &t.hasher).iter().any(|x| is_check(x, x.to_move) && nomoves(x)))
+            });
+            if chain {
+                out.push(json!({"tag": "mate", "cmd": format!("position fen {}", to_fen(&b, 0, 1))}));
+                count += 1;
+            }
+        }
+    }
+    if std::env::var("VERIF_SCEN_STATS").is_ok() {
+        eprintln!("check-chain two-mates: {} found in {} tries", count, tries);
+    }
     // exchange batteries: one square held by a pawn, attacked and defended several times over (doubled rooks and a queen on
     // its file, bishops on its diagonals, knights, pawns): the capture search runs ten and more plies deep on that square and
     // who has the last word decides the value (seeded C12-10: a capture search that stops after six plies)
